@@ -41,6 +41,9 @@ class Ctx:
         os.makedirs(self.work, exist_ok=True)
         os.makedirs(EVIDENCE_DIR, exist_ok=True)
         os.makedirs(REPLAY_DIR, exist_ok=True)
+        for fn in os.listdir(REPLAY_DIR):
+            if fn.startswith(f'{prop}_{tier}_'):
+                os.remove(os.path.join(REPLAY_DIR, fn))
         self.cov: Dict[str, Any] = {
             'states': 0, 'transitions': 0, 'traces_validated_against_impl': 0,
             'evaluations': 0, 'distinct_nontrivial': 0, 'samples': [], 'rule': '',
